@@ -413,6 +413,38 @@ func classify(h *History, flipOrder []int) string {
 			}
 		}
 	}
+	// 2z. lost update: two committed transactions read the SAME version of a key (same value) and
+	// both successfully overwrote it -- never a known class, must alarm
+	type rk struct{ key, val int }
+	readers := map[rk][]int{}
+	for i := range h.Txns {
+		t := &h.Txns[i]
+		if !t.Committed {
+			continue
+		}
+		seen := map[int]int{}
+		wrote := map[int]bool{}
+		for _, o := range t.Ops {
+			if o.Kind == "get" && o.Found && !wrote[o.Key] {
+				if _, ok := seen[o.Key]; !ok {
+					seen[o.Key] = o.Val
+				}
+			}
+			if isWrite(o) {
+				wrote[o.Key] = true
+			}
+		}
+		for k, v := range seen {
+			if wrote[k] {
+				readers[rk{k, v}] = append(readers[rk{k, v}], i)
+			}
+		}
+	}
+	for _, l := range readers {
+		if len(l) > 1 {
+			return "nonserializable:lost-update"
+		}
+	}
 	// 3. no write was lost: the final content is the blind replay of the successful writes in
 	// commit-point order; the damage is in what the writers READ
 	if len(flipOrder) > 0 {
